@@ -56,6 +56,7 @@ func K1() *Entry {
 		F("BillingSpan", Sc(ir.Int64), Cast("BillingDuration")),
 		F("SecondsSpan", Sc(ir.Int64), Cast("DurationSeconds")),
 		F("BillingSpans", Sc(ir.Int64), Rep(), Cast("BillingDuration")),
+		F("BackoffSpan", Sc(ir.Double), Cast("BackoffDuration")),
 		F("StringList", Rep()),
 		F("StringListEmpty", Rep()),
 		F("BoolCustomList", Sc(ir.Bool), Rep(), Custom("CustomB")),
@@ -156,6 +157,8 @@ func K4() *Entry {
 		F("Texts", Rep(), Cast("CastString")), F("Bigs", Sc(ir.Int64), Rep(), Cast("CastInt64")),
 		F("Ext", Cast("verif/rt/tfx.XString")), F("ExtNum", Sc(ir.Int64), Cast("verif/rt/tfx.XInt64")), F("ExtNums", Sc(ir.Int32), Rep(), Cast("verif/rt/tfx.XInt32")),
 		F("TextAlt", Cast("CastString"), In(0)), F("BigAlt", Sc(ir.Int64), Cast("CastInt64"), In(0)),
+		// cast types that are Go builtins but not the scalar types protobuf itself uses
+		F("CountInt", Sc(ir.Int64), Cast("int")), F("CountInts", Sc(ir.Int64), Rep(), Cast("int")), F("Letter", Sc(ir.Int32), Cast("rune")), F("Total", Sc(ir.Uint64), Cast("uint")),
 		F("Opaque", Sc(ir.Bytes), Custom("CustomA")), F("OpaqueValue", Sc(ir.Bytes), Custom("CustomA"), NonNull()),
 		F("Switches", Sc(ir.Bool), Rep(), Custom("CustomB")),
 		F("Joined"), F("Plain"),
@@ -332,7 +335,9 @@ func K9() *Entry {
 	c := BaseConfig("User", "Pref", "Meta", "Owner")
 	// injected attributes of an exported type that also occurs below other exported types, and of one nested path
 	c.InjectedFields = map[string][]ir.Injected{
-		"Meta":           {{Name: "meta_id", Type: "github.com/hashicorp/terraform-plugin-framework/types.StringType", Computed: true}},
+		"Meta": {{Name: "meta_id", Type: "github.com/hashicorp/terraform-plugin-framework/types.StringType", Computed: true},
+			{Name: "meta_rank", Type: "github.com/hashicorp/terraform-plugin-framework/types.Int64Type", Optional: true},
+			{Name: "meta_flag", Type: "github.com/hashicorp/terraform-plugin-framework/types.BoolType", Optional: true, Computed: true}},
 		"Owner":          {{Name: "owner_rank", Type: "github.com/hashicorp/terraform-plugin-framework/types.Int64Type", Optional: true}},
 		"User.Spec.Meta": {{Name: "spec_meta_note", Type: "github.com/hashicorp/terraform-plugin-framework/types.StringType", Optional: true, Computed: true, PlanModifiers: []string{USFU}}},
 	}
